@@ -122,7 +122,7 @@ class Model:
         if par == "dict":
             return UNSPEC
         if par is None or leaf not in par:
-            return ("raise", None)
+            return ("raise", KeyError)  # like a mapping: deleting what is not there is a KeyError, at any depth
         del par[leaf]
         return ("ok", None)
 
